@@ -52,6 +52,13 @@ def gen_int(rng):
     else:
         text = "0b" + underscores(rng, bin(v)[2:])
         kind = "BitInteger"
+    if form != "dec" and rng.random() < 0.15:
+        # leading zeros: up to and beyond 128 binary / 32 hexadecimal digits (only the value can be too big, E140)
+        digits = bin(v)[2:] if form == "bin" else ("%x" % v)
+        full = 128 if form == "bin" else 32
+        total = rng.choice([full, full, full - 1, full + 1, full + 12, len(digits) + 1])
+        if total >= len(digits):
+            text = text[:2] + underscores(rng, "0" * (total - len(digits)) + digits)
     vt = None
     if rng.random() < 0.4:
         s = rng.choice(INT_SUFFIXES)
@@ -203,7 +210,7 @@ def check_sequence(text, expected):
 
 ILLEGAL = [("@", 110), ("#", 110), ("$", 110), ("~", 110), ("`", 110), ("?", 110), ("é", 110), ("€", 110), ("\x7f", 110),
            ("\x01", 110), ("12q", 141), ("0x1g", 141), ("007", 141), ("1u7", 141), ("340282366920938463463374607431768211456", 140),
-           ("0x100000000000000000000000000000000", 140), ('"a\\qb"', 162), ('"\\x1"', 162), ('"\\u{}"', 162), ('"\\u{110000}"', 162),
+           ("0x100000000000000000000000000000000", 140), ("0b1" + "0" * 128, 140), ("0b01" + "0" * 128, 140), ("0x01" + "f" * 32, 140), ('"a\\qb"', 162), ('"\\x1"', 162), ('"\\u{}"', 162), ('"\\u{110000}"', 162),
            ("'ab'", 163), ("''", 163), ("'€'", 163), ("'\\u{41}'", 162)]
 
 
